@@ -490,6 +490,9 @@ func short(s string) string {
 
 func sprintf(f string, a ...any) string { return fmt.Sprintf(f, a...) }
 
+// inlineAnchors: functions the rules name as stages of a pipeline; they are never read through.
+var inlineAnchors = map[string]bool{"(*generator.Generator).generateContent": true}
+
 // Inline expands, inside term t, calls of module helper functions that consist of a single return statement
 // (the typical product of an "extract helper" refactoring) by the returned expression with the arguments substituted.
 // extract:i(call:f(args)) becomes result i, call:f(args) the single result.
@@ -516,7 +519,20 @@ func (c *Ctx) Inline(t *core.Term, depth int) *core.Term {
 			if cv, ok := call.V.(*ssa.Call); ok {
 				if fn := cv.Call.StaticCallee(); fn != nil && fn.Blocks != nil && (!strings.Contains(call.Name, "logger.") || fn.Parent() != nil) { // logger.Errorf & co. stay named; local closures are read through
 					rets := core.Returns(fn)
-					if len(rets) == 1 && len(fn.Blocks) <= 3 {
+					if len(rets) > 1 && len(fn.Blocks) <= 16 && idx >= 0 && !inlineAnchors[core.FuncName(fn)] {
+						// a pipeline helper: every return but one answers nil (with an error) at this position; the value is only
+						// looked at by callers on the nil-error edge, which the rules that use it demand separately
+						var only []*ssa.Return
+						for _, rt := range rets {
+							if idx < len(rt.Results) && !c.O.Of(rt.Results[idx]).Is("const", "nil") {
+								only = append(only, rt)
+							}
+						}
+						if len(only) == 1 {
+							rets = only
+						}
+					}
+					if len(rets) == 1 && (len(fn.Blocks) <= 3 || idx >= 0 && len(fn.Blocks) <= 16) {
 						k := idx
 						if k < 0 && len(rets[0].Results) == 1 {
 							k = 0
